@@ -1,7 +1,7 @@
 (* C09 property theorems only.  [ipf] (what net/netip.ParseAddr says about a string) is universally
    quantified everywhere: the theorems hold for every IP parser. *)
 From Coq Require Import List NArith ZArith Bool String Ascii.
-From V Require Import lib.Verdict C09.Model C09.Proofs C09.Proofs2 C09.Proofs3.
+From V Require Import lib.Verdict C09.Model C09.Proofs C09.Proofs2 C09.Proofs3 C09.Proofs4.
 Import ListNotations.
 Open Scope string_scope.
 
@@ -88,6 +88,38 @@ Theorem C09_comma_always_adds_entries : forall ipf ids,
   List.length (build_san ipf (join_with comma ids)) > List.length ids.
 Proof. exact comma_always_adds. Qed.
 Print Assumptions C09_comma_always_adds_entries.
+
+(* History form of the impersonation gate, for ALL sequences of pod events and requests on one
+   long-lived authorizer: the outcome of each request is the gate evaluated on the pods that exist at
+   that moment -- it depends on earlier events and earlier grants only through the current world. *)
+Theorem C09_impersonation_gate_history : forall trusted ops1 ps k imp ops2,
+  nth_error (run_history trusted ps (ops1 ++ HReq k imp :: ops2)) (count_reqs ops1)
+  = Some (cluster_authenticate_impersonation trusted (world_after ps ops1) k imp).
+Proof. exact history_outcome. Qed.
+Print Assumptions C09_impersonation_gate_history.
+
+Theorem C09_history_current_world_only : forall trusted psa opsa psb opsb k imp resta restb,
+  world_after psa opsa = world_after psb opsb ->
+  nth_error (run_history trusted psa (opsa ++ HReq k imp :: resta)) (count_reqs opsa) =
+  nth_error (run_history trusted psb (opsb ++ HReq k imp :: restb)) (count_reqs opsb).
+Proof. exact history_current_world_only. Qed.
+Print Assumptions C09_history_current_world_only.
+
+(* a grant at any point of a history is justified by pods on the caller's node NOW ... *)
+Theorem C09_history_grant_justified_now : forall trusted ops1 ps k imp ops2,
+  nth_error (run_history trusted ps (ops1 ++ HReq k imp :: ops2)) (count_reqs ops1) = Some true ->
+  impersonation_justified {| na_trusted := trusted; na_clusters := [("c", world_after ps ops1)] |} "c" k imp.
+Proof. exact history_grant_justified. Qed.
+Print Assumptions C09_history_grant_justified_now.
+
+(* ... and once no pod with the requested (namespace, service account) is left on the caller's node
+   the request is denied, whatever was granted before *)
+Theorem C09_history_revoked_when_workload_leaves : forall trusted ops1 ps k imp ops2,
+  (forall cp id, get_pod (k_pod k) (k_ns k) (world_after ps ops1) = Some cp -> parse_identity imp = Some id ->
+                 index_has (world_after ps ops1) (p_node cp) (sp_ns id) (sp_sa id) = false) ->
+  nth_error (run_history trusted ps (ops1 ++ HReq k imp :: ops2)) (count_reqs ops1) = Some false.
+Proof. exact history_revoked. Qed.
+Print Assumptions C09_history_revoked_when_workload_leaves.
 
 (* nothing in the CSR beyond (validity of the CSR, whether it has a CN, its public key) and nothing
    in the metadata beyond the ImpersonatedIdentity string influences the outcome *)
